@@ -63,7 +63,7 @@ impl Scheme {
         }
         if c.is_lowercase() {
             Cls::Lower
-        } else if c.is_uppercase() {
+        } else if crate::chars::is_upper_case(c) {
             Cls::Upper
         } else if c.is_numeric() {
             Cls::Number
